@@ -24,7 +24,7 @@ fn case_end() {
     *CURRENT_CASE.lock().unwrap() = None;
 }
 fn start_watchdog() {
-    let limit: u64 = std::env::var("MSTV_CASE_TIMEOUT_S").ok().and_then(|v| v.parse().ok()).unwrap_or(60);
+    let limit: u64 = std::env::var("MSTV_CASE_TIMEOUT_S").ok().and_then(|v| v.parse().ok()).unwrap_or(30);
     std::thread::spawn(move || loop {
         std::thread::sleep(std::time::Duration::from_millis(500));
         let cur = CURRENT_CASE.lock().unwrap().clone();
